@@ -44,7 +44,7 @@ CHECKS = {
                 "x {all active, massless test particle (type 0), massive test particle of type 1} x {forward, backward} (quick: 4 of the 6 combinations on system S3; thorough: all 6 on S3, S3t, S4G) x h = P/20, P/40, P/80 over two inner periods. "
                 "Oracles: error against the reference shrinks at the advertised classical order p (E(h)/E(h/4) >= 4^(p-1/2) or E(h/2)/E(h/4) >= 2^(p-1/2); pairs at the rounding floor unused), accuracy class for IAS15 (1e-11) and BS (3e3 x tolerance), end time, finiteness; relations: symplectic corrector >= 3 cuts the error below 0.3x, "
                 "kernel + high-order corrector below 0.5x the default kernel, forward/backward errors within 100x. User ODEs (harmonic oscillator, explicitly time-dependent right-hand side, quadrature coupled to a particle coordinate) advanced with BS, IAS15, WHFast, MERCURIUS against closed forms / the reference.",
-        "note": "Initial conditions are reduced to three well-separated systems; WHFast512 and SEI are not in this check (SEI's exact epicycle solution is covered under C03/C10 symmetric checks only).",
+        "note": "Initial conditions are reduced to three well-separated systems. WHFast512 (AVX512 build, run in a process of its own by mc/w512.py): N_systems 1/2/4 x keep_unsynchronized, stars of different mass, order 2 against the reference and agreement with WHFast in democratic heliocentric coordinates to 1e-9. SEI is not in this check (its exact epicycle solution is covered by the symmetric-scheme part of C10 only).",
     },
     "C10": {
         "engine": "gridmc", "category": "exploration",
@@ -59,7 +59,7 @@ CHECKS = {
         "text": "9.4k solver inputs (quick; thorough 28k): e in {0,1e-12,1e-4,0.1,0.5,0.9,0.99,1-1e-6,1+1e-6,1.01,1.5,10,1e3} x a{1e-6,1,1e6} x GM{1e-3,1,1e3} x 12 phases (peri-/apocentre and +-1e-8 around them) x |dt|/P in {1e-8,1e-4,9e-3,1.1e-2 (solver switch),0.1,0.5,1,1.5,10,1e3} x sign "
                 "through reb_whfast_kepler_solver; 7.4k single steps of WHFast x 4 coordinate systems, SABA1, MERCURIUS, TRACE on a two-body simulation (massless and, where the splitting is exact, massive secondary), and two-step sequences step/synchronize[/copy]/step in the deferred-synchronisation modes. "
                 "Reference at 40 digits; tolerance = 4096x (solver) / 8192x (step) the summed effect of a 1-ulp change of each input on the reference plus the forward-error bound of the f-g evaluation (observed maximum 273x). Finite results and termination are part of the oracle.",
-        "note": "Hybrid integrators only away from encounters (TRACE with S_peri=none, no near-parabolic pericentre passages). WHFast512 is not covered.",
+        "note": "Hybrid integrators only away from encounters (TRACE with S_peri=none, no near-parabolic pericentre passages). WHFast512 (AVX512 build, mc/w512.py): one step on 320 two-body cases against the exact orbit; its fixed-iteration solver is a recorded finding for steps long compared with the pericentre passage.",
     },
     "C11": {
         "engine": "gridmc", "category": "exploration",
